@@ -44,6 +44,10 @@ class Inconclusive(Exception):
     pass
 
 
+class Unwound(Exception):
+    """control was transferred to a landing pad"""
+
+
 class Fork(Exception):
     """raised from inside an instruction: alts = [(cond, ret)] ; mode 'ret' -> each alternative gets cond added and the
     call result set to ret; mode 'redo' -> instruction re-executed under cond (with concretisation cache entry)."""
@@ -78,13 +82,13 @@ class Frame:
 class State:
     def __init__(s):
         s.frames = []; s.mem = {}; s.own = set(); s.next_id = 1; s.pc = []; s.inputs = []; s.incount = {}; s.steps = 0
-        s.out = []; s.log = []; s.model = None; s.conc = {}; s.reach = []; s.guards = {}; s.asserts = 0
+        s.out = []; s.log = []; s.model = None; s.conc = {}; s.reach = []; s.guards = {}; s.asserts = 0; s.exc = None; s.lpval = None; s.caught = []
 
     def clone(s):
         t = State.__new__(State); t.frames = [f.clone() for f in s.frames]; t.mem = dict(s.mem); t.own = set(); s.own = set()
         t.next_id = s.next_id; t.pc = list(s.pc); t.inputs = list(s.inputs); t.incount = dict(s.incount); t.steps = s.steps
         t.out = list(s.out); t.log = list(s.log); t.model = s.model; t.conc = dict(s.conc); t.reach = list(s.reach); t.guards = dict(s.guards)
-        t.asserts = s.asserts
+        t.asserts = s.asserts; t.exc = s.exc; t.lpval = s.lpval; t.caught = list(s.caught)
         return t
 
     def wobj(s, oid):
@@ -114,7 +118,7 @@ class Exec:
         s.ext = {}; s.ext_prefix = []
         import models
         models.register(s)
-        s.deftypes = {}; s.fns_executed = {}; s.t0 = time.time(); s.samples = []; s.ext_calls = {}; s.known = []; s.redirects = []
+        s.deftypes = {}; s.fns_executed = {}; s.t0 = time.time(); s.samples = []; s.ext_calls = {}; s.known = []; s.redirects = []; s.typeids = {}; s.lpcache = {}; s.root_frame = None
 
     # ---------- solver
     def _check(s, assumptions):
@@ -493,7 +497,7 @@ class Exec:
 
     def run(s, entry):
         st = State(); s.init_globals(st)
-        f, m = s.fn_of[entry]; fr = Frame(f, m); st.frames.append(fr)
+        f, m = s.fn_of[entry]; fr = Frame(f, m); st.frames.append(fr); s.root_frame = fr
         work = [st]
         while work:
             if len(s.paths) > s.lim.paths: raise Inconclusive('path budget (%d) exhausted' % s.lim.paths)
@@ -682,7 +686,7 @@ class Exec:
                 if cells is not None:
                     o = oa.clone(); o.cells = cells; newmem[oid] = o
                 else: newmem[oid] = oa
-        except (KeyError, Fork, PathEnd, Inconclusive):
+        except (KeyError, Fork, PathEnd, Inconclusive, Unwound):
             del s.violations[nviol:]; s.vkeys = vk
             return False
         # commit
@@ -843,6 +847,8 @@ class Exec:
             return s.exec_ins(st, fr, ins)
         except Fork as fk:
             return s.do_fork(st, fr, ins, fk)
+        except Unwound:
+            return None
 
     def do_fork(s, st, fr, ins, fk):
         alts = []
@@ -975,8 +981,13 @@ class Exec:
             y[ins[6][-1]] = s.val(st, ins[5], ins[4]); env[ins[1]] = x
         elif k == 'freeze':
             x = s.val(st, ins[3], ins[2]); env[ins[1]] = s.zero(ins[2], 0) if x is None else x
-        elif k == 'resume': raise PathEnd('resume')
-        elif k == 'landingpad': raise Inconclusive('landing pad reached')
+        elif k == 'resume':
+            for oid in fr.allocas:
+                o = st.wobj(oid); o.alive = False; o.cells = []
+            st.frames.pop(); s.unwind(st); raise Unwound()
+        elif k == 'landingpad':
+            if st.lpval is None: raise Inconclusive('landing pad reached without an exception in flight')
+            env[ins[1]] = st.lpval; st.lpval = None
         elif k == 'atomicrmw':
             _, d, rop, t, ptr, v = ins; p = s.val(st, ptr, None); old = s.load(st, t, p); x = s.val(st, v, t)
             if rop == 'xchg': new = x
@@ -1036,14 +1047,95 @@ class Exec:
             return None
         raise Inconclusive('unmodelled external function ' + name)
 
-    def do_throw(s, st, tname, why):
-        """exceptions end the path; undocumented ones are violations"""
-        st.log.append('throw:' + tname)
-        if tname not in s.allowed_throws and '*' not in s.allowed_throws:
+    # ---------- exceptions (Itanium ABI, single inheritance offsets 0)
+    STD_BASES = {'_ZTISt12length_error': '_ZTISt11logic_error', '_ZTISt12out_of_range': '_ZTISt11logic_error', '_ZTISt16invalid_argument': '_ZTISt11logic_error',
+                 '_ZTISt12domain_error': '_ZTISt11logic_error', '_ZTISt11logic_error': '_ZTISt9exception', '_ZTISt13runtime_error': '_ZTISt9exception',
+                 '_ZTISt11range_error': '_ZTISt13runtime_error', '_ZTISt14overflow_error': '_ZTISt13runtime_error', '_ZTISt15underflow_error': '_ZTISt13runtime_error',
+                 '_ZTISt12system_error': '_ZTISt13runtime_error', '_ZTINSt8ios_base7failureB5cxx11E': '_ZTISt12system_error', '_ZTISt9bad_alloc': '_ZTISt9exception',
+                 '_ZTISt20bad_array_new_length': '_ZTISt9bad_alloc', '_ZTISt8bad_cast': '_ZTISt9exception', '_ZTISt10bad_typeid': '_ZTISt9exception',
+                 '_ZTISt17bad_function_call': '_ZTISt9exception', '_ZTISt19bad_optional_access': '_ZTISt9exception', '_ZTISt18bad_variant_access': '_ZTISt9exception',
+                 '_ZTISt13bad_exception': '_ZTISt9exception'}
+
+    def ti_bases(s, t):
+        b = s.STD_BASES.get(t)
+        if b: return [b]
+        for m in s.mods:
+            g = m.globals.get(t)
+            if g is not None and g[1] is not None and g[1][0] == 'agg':
+                out = []
+                def walk(v, depth):
+                    if v[0] == 'glob' and v[1].startswith('_ZTI'): out.append(m.resolve(v[1]))
+                    elif v[0] == 'agg':
+                        for et, ev in v[1]: walk(ev, depth + 1)
+                    elif v[0] == 'cgep': walk(v[2], depth + 1)
+                for et, ev in g[1][1][2:]: walk(ev, 0)
+                return out
+        return []
+
+    def ti_is_base(s, c, t, depth=0):
+        if c == t: return True
+        if depth > 12: return False
+        return any(s.ti_is_base(c, b, depth + 1) for b in s.ti_bases(t))
+
+    def typeid(s, name):
+        i = s.typeids.get(name)
+        if i is None: i = s.typeids[name] = len(s.typeids) + 1
+        return i
+
+    def landing_info(s, fn, lb):
+        key = (id(fn), lb); r = s.lpcache.get(key)
+        if r is None:
+            blk = fn.blocks[lb]; lp = None
+            for ins in blk:
+                if ins[0] == 'phi': continue
+                lp = ins; break
+            if lp is None or lp[0] != 'landingpad': raise Inconclusive('unwind destination without landingpad in ' + fn.name)
+            txt = lp[2]; catches = []
+            if 'filter' in txt: raise Inconclusive('exception specification filter')
+            import re as _re
+            for m in _re.finditer(r'catch i8\* (null|[^@]*@("[^"]*"|[\w.$-]+))', txt):
+                catches.append(None if m.group(1) == 'null' else m.group(2).strip('"'))
+            r = s.lpcache[key] = (catches, bool(_re.search(r'\bcleanup\b', txt)))
+        return r
+
+    def throw_exc(s, st, tinfo, obj):
+        st.exc = (tinfo, obj); st.log.append('throw:' + tinfo)
+        s.unwind(st); raise Unwound()
+
+    def unwind(s, st):
+        tinfo, obj = st.exc
+        while st.frames:
+            fr = st.frames[-1]
+            ins = fr.fn.blocks[fr.block][fr.idx - 1] if fr.idx > 0 else None
+            if ins is not None and ins[0] == 'call' and ins[6] is not None:
+                catches, cleanup = s.landing_info(fr.fn, ins[6]); sel = None
+                for c in catches:
+                    if c is None: sel = s.typeid('<catch-all>'); break
+                    if s.ti_is_base(fr.mod.resolve(c), tinfo): sel = s.typeid(fr.mod.resolve(c)); break
+                if sel is None and cleanup: sel = 0
+                if sel is not None:
+                    st.lpval = [obj, sel]; s.jump(st, fr, ins[6]); return
+            for oid in fr.allocas:
+                o = st.wobj(oid); o.alive = False; o.cells = []
+            st.frames.pop()
+        # left the harness
+        pretty = s.STD_PRETTY.get(tinfo, tinfo)
+        if pretty not in s.allowed_throws and tinfo not in s.allowed_throws and '*' not in s.allowed_throws:
             m = s.feasible(st)
             if m is None: raise PathEnd('infeasible')
-            s.record(st, 'throw', 'undocumented exception %s (%s)' % (tname, why), s.model_of(st, m), s.uf_tables(m))
-        raise PathEnd('throw:' + tname)
+            st.frames.append(s.root_frame)
+            s.record(st, 'throw', 'undocumented exception %s escapes' % pretty, s.model_of(st, m), s.uf_tables(m)); st.frames.pop()
+        raise PathEnd('throw:' + pretty)
+
+    STD_PRETTY = {}
+
+    def do_throw(s, st, tname, why):
+        """libstdc++ __throw_* helper or rethrow: tname is 'std::xxx'"""
+        short = tname.split('::', 1)[1] if tname.startswith('std::') else tname
+        ti = {'ios_failure': '_ZTINSt8ios_base7failureB5cxx11E'}.get(short, '_ZTISt%d%s' % (len(short), short))
+        s.STD_PRETTY[ti] = tname
+        obj = s.alloc(st, 64, 'exc', 'exception ' + tname)
+        s.throw_exc(st, ti, obj)
 
     def intrinsic(s, st, name, a, args):
         if name.startswith(('llvm.lifetime', 'llvm.invariant', 'llvm.experimental.noalias', 'llvm.stackrestore', 'llvm.prefetch', 'llvm.donothing', 'llvm.var.annotation')): return None
@@ -1060,7 +1152,10 @@ class Exec:
             kinds = {0: 'add overflow', 1: 'builtin unreachable', 3: 'divrem overflow', 5: 'float cast overflow', 8: 'invalid builtin', 10: 'load invalid value', 12: 'mul overflow', 13: 'negate overflow', 16: 'nullability', 18: 'out of bounds', 19: 'pointer overflow', 20: 'shift out of bounds', 21: 'sub overflow', 22: 'type mismatch / null'}
             s.ub(st, 'ubsan trap: ' + kinds.get(a[0] if isinstance(a[0], int) else -1, str(a[0])))
         if name.startswith('llvm.trap'): s.ub(st, 'llvm.trap')
-        if name.startswith('llvm.eh.typeid.for'): return 0
+        if name.startswith('llvm.eh.typeid.for'):
+            p = a[0]
+            if isinstance(p, Ptr) and p.obj in st.mem: return s.typeid(st.mem[p.obj].name.lstrip('@'))
+            return s.typeid('<catch-all>')
         if name.startswith('llvm.expect'): return a[0]
         if name.startswith('llvm.objectsize'): return mask(-1, res(args[0][0]).n if False else 64)
         if name.startswith('llvm.is.constant'): return 0
